@@ -567,7 +567,7 @@ void run_meter(vf::Ctx &c) {
 void setup(vf::Options &o) {
   o.split_depth = 3;
   o.deadline_s = o.thorough ? 1200 : 150;
-  o.table_bits = 24;
+  o.table_bits = o.thorough ? 25 : 24;
   build_cfgs();
   g_seam = o.get("seam", "agg");
   g_nmax = atoi(o.get("n", o.thorough ? "5" : "3").c_str());
